@@ -2,7 +2,9 @@ package smtp
 
 import (
 	"errors"
+	"github.com/emersion/go-sasl"
 	"io"
+	"time"
 )
 
 func verif_C04_line() { verifLineHarness("C04") }
@@ -376,3 +378,96 @@ func verif_C04_segmentation() {
 // verif_C04_conn_isolation: "never the outcome of an earlier transaction",
 // across connections (see verifConnIsolation in zz_verif_c08.go).
 func verif_C04_conn_isolation() { verifConnIsolation("C04") }
+
+// verif_C04_auth_read_failure: the read of the SASL response line (after a 334
+// challenge) fails: the line is over-long, the read deadline expires (the peer
+// answers late), or the peer is gone. The server gives up on the connection with
+// at most ONE closing reply after the 334, nothing that arrives later is
+// answered or executed.
+func verif_C04_auth_read_failure() {
+	m := &vsasl{failAt: -1, steps: 1, challenge: [][]byte{[]byte("c")}}
+	be := &vbackend{authSession: true, mechs: []string{"XVERIF"}}
+	be.saslFn = func(_ *vsession, mech string) (sasl.Server, error) { return m, nil }
+	s, lg := verifServer(be)
+	s.AllowInsecureAuth = true
+	s.MaxLineLength = 24
+	s.ReadTimeout = time.Second
+	head := "EHLO c\r\nAUTH XVERIF\r\n"
+	kind := verifChoice(3)
+	in := head
+	vc := &vconn{final: io.EOF}
+	switch kind {
+	case 0:
+		in += "AAAAAAAAAAAAAAAAAAAAAAAAAAAAAAAAAAAAAAAA\r\nNOOP\r\nMAIL FROM:<late@v>\r\n"
+	case 1:
+		in += "AA==\r\nNOOP\r\nMAIL FROM:<late@v>\r\n"
+		vc.faults = map[int]error{len(head) + nondetInt(0, 3): verifTimeoutErr{}}
+	case 2:
+	}
+	vc.in = []byte(in)
+	c := newConn(vc, s)
+	err := s.handleConn(c)
+	verifSettle()
+	reps, wf := verifParseReplies(vc.out)
+	verifObserve("c04arf", kind, wf, len(reps), lg.lines)
+	verifAssert(wf && err == nil && verifPanicEvents() == 0, "C04.auth-read-failure-clean")
+	if !wf {
+		return
+	}
+	verifAssert(len(reps) >= 3 && reps[2].code == 334, "C04.auth-read-failure-challenge")
+	if len(reps) < 3 {
+		return
+	}
+	after := reps[3:]
+	switch kind {
+	case 0:
+		verifAssert(len(after) == 1 && after[0].code == 500, "C04.auth-read-failure-one-closing-reply")
+	case 1:
+		verifAssert(len(after) == 1 && after[0].code == 421, "C04.auth-read-failure-one-closing-reply")
+	case 2:
+		verifAssert(len(after) == 0, "C04.auth-read-failure-one-closing-reply")
+	}
+	verifAssert(vc.closed && be.find("Mail", "late@v") < 0 && !c.didAuth, "C04.auth-read-failure-nothing-after")
+	verifReach("C04.auth-read-failure-end")
+}
+
+// verif_C04_slow_line: the read deadline expires in front of an ARBITRARY
+// octet of a pipelined conversation (the peer is slow; the rest arrives
+// afterwards). Exactly the commands received in full before that point are
+// answered, one reply each, then the idle-timeout notice closes the
+// connection: a fragment of a line is never executed as a command, and neither
+// is what arrives later.
+func verif_C04_slow_line() {
+	in := "EHLO c\r\nMAIL FROM:<a@v>\r\nRCPT TO:<b@v>\r\nNOOP\r\nRSET\r\n"
+	at := nondetInt(0, len(in)-1)
+	be := &vbackend{}
+	s, lg := verifServer(be)
+	s.ReadTimeout = time.Second
+	vc := &vconn{in: []byte(in), final: io.EOF}
+	vc.faults = map[int]error{at: verifTimeoutErr{}}
+	c := newConn(vc, s)
+	err := s.handleConn(c)
+	verifSettle()
+	complete := 0
+	for i := 0; i < at; i++ {
+		if in[i] == '\n' {
+			complete++
+		}
+	}
+	reps, wf := verifParseReplies(vc.out)
+	verifObserve("c04slow", at, complete, wf, len(reps), lg.lines)
+	verifAssert(wf && err == nil && lg.lines == 0, "C04.slow-line-clean")
+	if !wf {
+		return
+	}
+	verifAssert(len(reps) == 1+complete+1, "C04.slow-line-one-reply-per-complete-command")
+	if len(reps) == 1+complete+1 {
+		for _, r := range reps[1 : 1+complete] {
+			verifAssert(r.code == 250, "C04.slow-line-complete-commands-executed")
+		}
+		verifAssert(reps[len(reps)-1].code == 421, "C04.slow-line-idle-timeout-notice")
+	}
+	verifAssert(vc.closed, "C04.slow-line-closed")
+	verifAssert((be.count("Mail") == 1) == (complete >= 2) && (be.count("Rcpt") == 1) == (complete >= 3), "C04.slow-line-no-fragment-executed")
+	verifReach("C04.slow-line-end")
+}
